@@ -145,7 +145,7 @@ impl Property for C13 {
         }
     }
     fn rule(&self) -> String {
-        format!("alphabet {:?}; complete enumeration of all ordered pairs of strings up to length 3 (quick) / 4 (thorough) and of all triples up to length 2, sorted-run criterion for transitivity over the whole bounded set, plus random long pairs/triples with shared prefixes, zero runs and separator runs, and EVR/NEVRA tuples. Every evaluated pair with a != b is non-trivial; enumerated pairs are distinct by construction, random ones by hash.", SIGMA)
+        format!("alphabet {:?}; complete enumeration of all ordered pairs of strings up to length 3 (quick) / 4 (thorough) and of all triples up to length 2, sorted-run criterion for transitivity over the whole bounded set, plus random long pairs/triples with shared prefixes, zero runs and separator runs, pairs that share up to 5000 repetitions of a unit (segments, separators, tilde/caret steps; lengths around every power of two up to 4096 units) before they differ, and EVR/NEVRA tuples. Every evaluated pair with a != b is non-trivial; enumerated pairs are distinct by construction, random ones by hash.", SIGMA)
     }
     fn assumptions(&self) -> Vec<String> {
         vec!["reference = transliteration of rpm's rpmvercmp() (refimpl::vercmp); EVR order as stated in C13 (epoch \"\" = \"0\", then version, then release)".into()]
@@ -167,6 +167,21 @@ impl Property for C13 {
             v.push(Phase::Enumerate { name: "sorted-run-len4", total: 1, exhaustive: true, gen: Arc::new(|_| Some(C13Case::SortedRun { maxlen: 4 })) });
         }
         v.push(Phase::Random { name: "long-pairs", cases: tier.pick(1_000_000, 6_000_000), strat: Arc::new(|| long_pair().prop_map(|(a, b)| C13Case::Pair(a, b)).boxed()) });
+        // hundreds to thousands of shared segments / tilde-caret steps / characters before the
+        // first difference (any per-string bound on segments, blocks or length shows up here)
+        v.push(Phase::Random {
+            name: "very-long-pairs",
+            cases: tier.pick(20_000, 400_000),
+            strat: Arc::new(|| {
+                let unit = proptest::sample::select(vec!["1.", "a.", "1a", "~", "^", "0.", "10.", "1~", "ab1.", "-", "_", "1.1.1.1.1.1.1.1.", "0123456789abcdef"]);
+                let count = prop_oneof![3 => 1usize..64, 3 => proptest::sample::select(vec![15usize, 16, 17, 255, 256, 257, 511, 512, 513, 1023, 1024, 1025, 4095, 4096, 4097]), 2 => 64usize..5000];
+                let tail = || prop_oneof![2 => "[0-9a-b.~^_]{0,4}", 1 => Just(String::new()), 1 => Just("~".to_string()), 1 => Just(".".to_string()), 1 => Just("0".to_string()), 1 => Just("2".to_string()), 1 => Just("3".to_string())];
+                (unit, count, tail(), tail()).prop_map(|(u, n, x, y)| {
+                    let p = u.repeat(n);
+                    C13Case::Pair(format!("{p}{x}"), format!("{p}{y}"))
+                }).boxed()
+            }),
+        });
         v.push(Phase::Random {
             name: "long-triples",
             cases: tier.pick(300_000, 2_000_000),
